@@ -98,6 +98,17 @@ def discard_one_way(ctx, rule='C12.R5'):
          'MethodDiscardMessage.is_one_way resolves to %s, which does not return True (method resolution order: %s)' % (
            ('%s.is_one_way' % ow.cls.qualname) if ow is not None else 'nothing', [k.qualname for k in prog.mro(dc)]),
          'a discard must not lease a tag: the transport writes it with header tag 0 and expects no reply', nontrivial=not okw)
+  # ... and nothing else is: the mux transport leases a tag and registers the call exactly when the message is NOT one-way
+  base = prog.cls('scales/message.py', 'Message')
+  for c in prog.subclasses(base, strict=False):
+    if c is dc or dc in prog.mro(c):
+      continue
+    m = prog.lookup_method(c, 'is_one_way')
+    okf = m is not None and [U(st).replace(' ', '') for st in m.node.body if not (isinstance(st, ast.Expr) and isinstance(st.value, ast.Constant))] == ['returnFalse']
+    ctx.ob(rule, c, '%s is not one-way (it leases a tag and is answered)' % c.name, okf,
+           '%s.is_one_way resolves to %s, which is not the constant False' % (c.name, ('%s.is_one_way' % m.cls.qualname) if m is not None else 'nothing'),
+           'a call marked one-way by anything but its class (a flag set by a serializer for thrift oneway functions) is written with the reserved tag 0, shares it with every '
+           'other such call, and the reply the peer sends for it is dropped', nontrivial=not okf)
 
 
 def observable_truthy(ctx, rule='C12.R1'):
@@ -110,6 +121,47 @@ def observable_truthy(ctx, rule='C12.R1'):
          'Observable defines %s: an event without subscribers is falsy, so `if evt:` / `if timeout_event and ...` treat a call WITH a deadline as one without -- '
          'the timed-out flag is never set, queued frames of timed-out calls are written and no discard is sent' % bad,
          'the timeout event is how every hop learns that the caller already has TimeoutError')
+  why = ('the per-call timeout event is polled (`Get()`) by the balancer gate and the pool queue and subscribed to by the mux send loop: a Set that does not store its '
+         'value when nobody is subscribed, or a subscription held only weakly, makes a call that already has TimeoutError look live -- it is dispatched, charged and written')
+  st = prog.func('scales/observable.py', 'Observable.Set')
+  vp = st.params[1] if len(st.params) > 1 else None
+  n = 0
+  for ev, ex in enum_paths(ctx, st):
+    if ex[0] != 'ret':
+      continue
+    n += 1
+    stores = [i for i, e in enumerate(ev) if e.kind == 'stmt' and isinstance(e.node, ast.Assign) and U(e.node.targets[0]) == 'self._value' and U(e.node.value) == vp]
+    notes = [i for i, e in enumerate(ev) if e.kind == 'call' and any('__Notify' in U(a) or '_Notify' in U(a) for a in e.node.args) or (e.kind == 'call' and 'Notify' in U(e.node.func))]
+    ctx.ob(rule, st, 'Set stores the value on every path, then notifies', len(stores) >= 1 and bool(notes) and stores[0] < notes[0],
+           'a path of Observable.Set stores the value %d times and notifies %d times' % (len(stores), len(notes)), why)
+  ctx.floor(rule, 'paths of Observable.Set', n, 1)
+  g = prog.func('scales/observable.py', 'Observable.Get')
+  rets = [r for r in walk_no_nested(g.node) if isinstance(r, ast.Return)]
+  ctx.ob(rule, g, 'Get returns the stored value', len(rets) == 1 and rets[0].value is not None and U(rets[0].value) == 'self._value', 'Get returns %s' % [U(r) for r in rets], why)
+  sub = prog.func('scales/observable.py', 'Observable.Subscribe')
+  cb = sub.params[1]
+  adds = [c for c in walk_no_nested(sub.node) if isinstance(c, ast.Call) and call_attr(c) in ('add', 'append')]
+  ctx.ob(rule, sub, 'Subscribe keeps the callback itself (a strong reference)', len(adds) >= 1 and all([U(a) for a in c.args] == [cb] for c in adds),
+         'Subscribe stores %s' % [U(c) for c in adds],
+         why + '; the discard callback of the mux send loop is a lambda nothing else refers to: held weakly it is collected before the timeout fires')
+  # the event entry on the message: written by the timeout sink when the call is issued, never removed while the message lives
+  bad = []
+  for f in prog.all_funcs:
+    for nd in ast.walk(f.node):
+      t = None
+      if isinstance(nd, ast.Call) and call_attr(nd) in ('pop', 'popitem', 'clear', '__delitem__') and (any('EVENT_KEY' in U(a) for a in nd.args) or
+                                                                                                         (call_attr(nd) in ('clear', 'popitem') and 'properties' in U(nd.func))):
+        t = U(nd)
+      elif isinstance(nd, ast.Delete) and any('EVENT_KEY' in U(x) for x in nd.targets):
+        t = U(nd)
+      elif isinstance(nd, ast.Assign) and any(isinstance(x, ast.Subscript) and 'EVENT_KEY' in U(x.slice) for x in nd.targets) and f.qualname != 'ClientTimeoutSink.AsyncProcessRequest':
+        t = U(nd)
+      if t:
+        bad.append('%s: %s' % (f.qualname, t[:80]))
+  ctx.ob(rule, prog.func('scales/sink.py', 'ClientTimeoutSink.AsyncProcessRequest'), 'the timeout event stays on the message once the timeout sink has put it there',
+         not bad, 'the entry is removed / rewritten by %s' % bad,
+         'the expiry checks further down the stack (balancer gate, mux send loop) read the event from the message after the caller was handed TimeoutError: with the entry gone they take the '
+         '"no deadline" branch and dispatch / write the dead call')
 
 
 def gate_direct(ctx, rule='C12.R2'):
